@@ -1433,7 +1433,11 @@ func (m *RadioTap) DecodeFromBytes(data []byte, df gopacket.DecodeFeedback) erro
 			headlen += 2
 		}
 		if headlen%4 == 2 && len(payload) >= headlen+2 {
-			payload = append(payload[:headlen], payload[headlen+2:len(payload)]...)
+			// build the payload without the padding in new memory: appending to payload[:headlen]
+			// would shift the rest of the frame inside the caller's packet data
+			unpadded := make([]byte, 0, len(payload)-2)
+			unpadded = append(unpadded, payload[:headlen]...)
+			payload = append(unpadded, payload[headlen+2:]...)
 		}
 	}
 
